@@ -25,9 +25,10 @@ Theorem C19_sorted_range_independent : forall (V A : Type) (m : list (N * V)) (o
 Proof. exact @range_sorted_independent. Qed.
 Theorem C19_sort_forgets_order : forall l l', Permutation l l' -> nsort l = nsort l'.
 Proof. exact nsort_order_independent. Qed.
-(* the SubRip writer: same list, same bytes (no hidden input) *)
-Theorem C19_srt_deterministic : forall l l', l = l' -> write_srt l = write_srt l'.
-Proof. intros l l' H. rewrite H. reflexivity. Qed.
+(* The SubRip writer model has no input besides the cue list ([write_srt : list sitem -> res str]): "same list, same bytes"
+   is the functionality of Gallina functions and is not restated as a theorem (an implication from [l = l'] would say
+   nothing).  What ties that to the real writer is the byte comparison of the model with WriteToSRT on every case and the
+   repeated-write / cross-process suite. *)
 
 (* the WebVTT writer model takes the iteration orders of the style and region maps as parameters: its
    bytes do not depend on them *)
@@ -40,9 +41,6 @@ Theorem C19_ssa_deterministic : forall d order order', Permutation order order' 
 Proof. exact write_order_independent. Qed.
 
 (* EBU STL: the clock is the only hidden input *)
-Theorem C19_stl_deterministic : forall now now' md md' items items',
-  now = now' -> md = md' -> items = items' -> write_stl now md items = write_stl now' md' items'.
-Proof. exact write_stl_deterministic. Qed.
 Theorem C19_stl_clock_only_when_dates_absent : forall now now' m c r items,
   wm_cd m = Some c -> wm_rd m = Some r -> write_stl now (Some m) items = write_stl now' (Some m) items.
 Proof. exact clock_unused_with_dates. Qed.
@@ -50,7 +48,6 @@ Theorem C19_stl_clock_only_in_dates : forall now now' md items out out',
   write_stl now md items = Ok out -> write_stl now' md items = Ok out' ->
   firstn 224 out = firstn 224 out' /\ skipn 236 out = skipn 236 out'.
 Proof. exact clock_only_dates. Qed.
-Print Assumptions C19_stl_deterministic.
 Print Assumptions C19_stl_clock_only_when_dates_absent.
 Print Assumptions C19_stl_clock_only_in_dates.
 
@@ -66,7 +63,6 @@ Example C19_example : nsort [3; 1; 2]%N = nsort [2; 3; 1]%N. Proof. reflexivity.
 
 Print Assumptions C19_sorted_range_independent.
 Print Assumptions C19_sort_forgets_order.
-Print Assumptions C19_srt_deterministic.
 Print Assumptions C19_vtt_deterministic.
 Print Assumptions C19_ssa_deterministic.
 Print Assumptions C19_ttml_deterministic.
